@@ -23,6 +23,12 @@ fn main() {
 	if std::env::var("VERIF_PANIC_VERBOSE").is_err() {
 		std::panic::set_hook(Box::new(|_| {}));
 	}
+	// resource-limited child of an isolated run: address-space limit in GiB
+	if let Some(gb) = std::env::var("VERIF_AS_LIMIT_GB").ok().and_then(|s| s.parse::<u64>().ok()) {
+		unsafe {
+			libc::setrlimit(libc::RLIMIT_AS, &libc::rlimit { rlim_cur: gb << 30, rlim_max: gb << 30 });
+		}
+	}
 	let args: Vec<String> = std::env::args().collect();
 	if args.len() < 3 {
 		eprintln!("usage: vharness replay <ID> <cases.ndjson> <trace.ndjson> | record <ID> <trace.ndjson>");
@@ -42,6 +48,7 @@ fn main() {
 		("replay", "PIPELINE") => pipeline::replay(&args[3], &args[4], &args[5]),
 		("replay", "CONVERT") => convert::replay(&args[3], &args[4], &args[5]),
 		("cli", "CONVERT") => convert::cli(&args[3], &args[4], &args[5], &args[6], args[7].parse().unwrap()),
+		("isolated", "CONTAINER") => container::isolated(&args[3], &args[4], &args[5], &args[6]),
 		("replay", "CONTAINER") => container::replay(&args[3], &args[4], &args[5], &args[6]),
 		("record", "CONTAINER") => container::record(&args[3], &args[4], seed, thorough, &args[5]),
 		("replay", "C15") => c15::replay(&args[3], &args[4]),
